@@ -213,6 +213,8 @@ def run(ctx):
     # ---- the same search loop on BINARY64 score tables of the real built-in scorers (Model/Generic.v at Model/GenericF.v), bit for bit ----
     from harness import floatstreams
     floatstreams.cbs_float_stream(ctx, ctx.n(24, 120))
+    # the DEFAULT configuration on series of realistic length and width, decided by the property-level twin of the model
+    floatstreams.cbs_default_scale_stream(ctx, ctx.n(2, 10))
 
     from harness.variants import variants_stream
     from skchange.anomaly_detectors import CircularBinarySegmentation as _CBS
